@@ -361,7 +361,7 @@ def run(ctx):
     for e in sub.errors:
         ctx.error("shared C11 rules: " + e)
     for o in sub.obligations:
-        if o.rule in ("C11.R3", "C11.R4"):
+        if o.rule in ("C11.R1", "C11.R3", "C11.R4"):        # R1: the operators an exported condition was built with (IfThenElse exports ~condfunc) mean what they print
             ctx.ob("C19.R6", o.where, o.ok, o.what, key=o.key, loc=o.loc, detail=o.detail)
     ctx.floor("C19.R6", 26)
 
